@@ -24,12 +24,45 @@
        non-dominated 2-D set below the reference point, duplicates included (contribution 0), for every
        order std::sort may leave equal points in; hence the k smallest / largest reported contributions
        are the k extremal true contributions (theorems C13_contrib2d_...).
+     * the WFG recursion (C13Wfg.v, model of HypervolumeCalculatorMDWFG.h as coded: sort, base cases n = 0, 1, 2,
+       the loop  sum_i boxVolume(p_i) - wfg(limitSet(p_{i+1..}, p_i)),  limitSet = component-wise maximum with p_i,
+       rank-1 points of nonDominatedSort, re-sorted; recursion on fuel = number of points) = hv_spec for EVERY
+       point set below the reference point (duplicates, dominated points, points on the boundary included), every
+       dimension, every arrangement the compaction / std::sort may leave the points in (C13_wfg_correct_any_arrangement;
+       C13_wfg_correct for the extracted instance).  Key identity on the unit-cell spec:
+       hv(p :: S) = hv(S) + boxVolume(p) - hv({max(q,p) : q in S})  (C13_hv_inclusion_exclusion, no hypothesis at the
+       cell level: C13_hv_inclusion_exclusion_cells); the limit set is characterised as the set of non-dominated
+       members of {max(q,p)} (C13_wfg_limit_set) and has the hypervolume of {max(q,p)} (C13_wfg_limit_set_hv);
+     * the 3-D sweep (C13Sweep3d.v, model of HypervolumeCalculator3D.h as coded: filter strictly below the reference,
+       sort by the third objective, std::map staircase with lower_bound / erase / operator[], area decrements and
+       increment, volume chunks) = hv_spec in dimension 3 for EVERY point set below the reference point (ties in every
+       objective, duplicates, dominated points, points on the reference boundary, keys already in the map) and for every
+       order the sort may leave equal third objectives in (C13_hv3d_correct_any_tie_order; C13_hv3d_correct for the
+       model's insertion sort).
+     * 2-D subset selection (C13Hssp.v, model of HypervolumeSubsetSelection2D.h with reference point as coded:
+       createFront with the comparator of the code and std::unique, the deque algorithm upperEnvelope, the k-1 rounds of
+       hypSSP, the first maximiser of f_i(0), back-tracking): whenever the model returns a selection (k >= 1 and at
+       least k points left in the front; otherwise the code throws), it marks at most k points of the set and NO list
+       of at most k points of the set has a larger hv_spec; its hv_spec equals best_subset_hv k (C13_hssp_optimal,
+       C13_hssp_is_best_subset) -- for every envelope routine with the specification "h_i = max_{j<=i} f_j(x_i),
+       chosen_i attains it" and every arrangement of the shifted points that is a permutation sorted by the first
+       objective (C13_hssp_optimal_any_arrangement; the comparator of the code is not a strict weak order, so the
+       order inside a group of equal first objectives is whatever the sort leaves); the deque algorithm satisfies
+       that specification for lines of strictly increasing slope and non-decreasing query points
+       (C13_hssp_upper_envelope), libstdc++'s insertion sort with the comparator of the code is such an arrangement
+       (C13_hssp_sort_instance).  Rational comparisons of the code (intersection abscissae, 1e-10 tolerance) are
+       modelled exactly (cross-multiplication): assumption "small integer coordinates" of the check.
+   Modelled, not verified: nonDominatedSort inside limitSet is taken to compute rank_list (proved for
+   fastNonDominatedSort: C13_fast_sort; the dispatcher and the DC sort are compared on every run, and the limit set the
+   code computes is compared with the model's on every H query).
    NOT PROVED, only compared on every run (tools/c13.py, exact integer arithmetic):
-     * DC sort, the dispatcher, 3-D sweep, HOY, WFG, 3-D/MD contributions, 2-D subset
-       selection: differential test of the C++ against rank_list / hv_spec / contrib_spec /
-       best_subset_hv (extracted) and against an independent Python monitor. *)
+     * DC sort, the dispatchers, HOY, 3-D/MD contributions, contributions and subset selection WITHOUT reference
+       point: differential test of the C++ against rank_list / hv_spec / contrib_spec (extracted) and against an
+       independent Python monitor. *)
 From Coq Require Import List ZArith Permutation Sorted.
 From SharkV Require Import ListAux C13Model C13Proofs C13ProofsFast C13ProofsContrib.
+From SharkV Require Import C13Wfg C13WfgProofs C13Sweep3d C13Sweep3dProofs.
+From SharkV Require Import C13Hssp C13HsspEnvProofs C13HsspProofs C13HsspFrontProofs.
 Import ListNotations.
 
 (* ---- dominance *)
@@ -219,3 +252,133 @@ Theorem C13_contrib2d_example :
 Proof. exact contrib2d_example. Qed.
 Print Assumptions C13_contrib2d_example.
 
+(* ---- WFG recursion (HypervolumeCalculatorMDWFG.h) *)
+Theorem C13_hv_inclusion_exclusion_cells :
+  forall lo ref S p,
+    (hv_box lo ref (p :: S) + hv_box lo ref (map (fun q => pmax q p) S) =
+     hv_box lo ref S + hv_box lo ref [p])%Z.
+Proof. exact hv_box_incl_excl. Qed.
+Print Assumptions C13_hv_inclusion_exclusion_cells.
+
+Theorem C13_hv_inclusion_exclusion :
+  forall ref S p, below_ref ref (p :: S) ->
+    hv_spec ref (p :: S) = (hv_spec ref S + box_vol ref p - hv_spec ref (map (fun q => pmax q p) S))%Z.
+Proof. exact hv_spec_incl_excl. Qed.
+Print Assumptions C13_hv_inclusion_exclusion.
+
+Theorem C13_hv_single_point_is_box_volume :
+  forall ref p, leq_all p ref -> hv_spec ref [p] = box_vol ref p.
+Proof. exact hv_spec_single. Qed.
+Print Assumptions C13_hv_single_point_is_box_volume.
+
+Theorem C13_wfg_limit_set :
+  forall arr ref S p u, (forall l, Permutation (arr l) l) -> below_ref ref (p :: S) ->
+    (In u (limit_set arr S p) <->
+     (exists q, In q S /\ u = pmax q p) /\ forall q, In q S -> ~ dominates (pmax q p) u).
+Proof. exact limit_set_members. Qed.
+Print Assumptions C13_wfg_limit_set.
+
+Theorem C13_wfg_limit_set_hv :
+  forall arr, (forall l, Permutation (arr l) l) ->
+  forall ref rest p, below_ref ref (p :: rest) ->
+    hv_spec ref (limit_set arr rest p) = hv_spec ref (map (fun q => pmax q p) rest).
+Proof. exact limit_set_hv. Qed.
+Print Assumptions C13_wfg_limit_set_hv.
+
+Theorem C13_wfg_recursion_correct :
+  forall arr, (forall l, Permutation (arr l) l) ->
+  forall fuel ref pts, below_ref ref pts -> length pts <= fuel ->
+    wfg_fuel arr fuel ref pts = hv_spec ref pts.
+Proof. exact wfg_fuel_correct. Qed.
+Print Assumptions C13_wfg_recursion_correct.
+
+Theorem C13_wfg_correct_any_arrangement :
+  forall arr, (forall l, Permutation (arr l) l) ->
+  forall ref pts, below_ref ref pts -> wfg_top arr ref pts = hv_spec ref pts.
+Proof. exact wfg_top_correct. Qed.
+Print Assumptions C13_wfg_correct_any_arrangement.
+
+Theorem C13_wfg_correct :
+  forall ref pts, below_ref ref pts -> wfg ref pts = hv_spec ref pts.
+Proof. exact wfg_correct. Qed.
+Print Assumptions C13_wfg_correct.
+
+Theorem C13_wfg_example :
+  below_ref [6; 6; 6]%Z [[1; 5; 2]; [2; 3; 3]; [2; 3; 3]; [4; 4; 4]; [3; 1; 5]; [1; 4; 5]]%Z /\
+  wfg [6; 6; 6]%Z [[1; 5; 2]; [2; 3; 3]; [2; 3; 3]; [4; 4; 4]; [3; 1; 5]; [1; 4; 5]]%Z = 51%Z /\
+  hv_spec [6; 6; 6]%Z [[1; 5; 2]; [2; 3; 3]; [2; 3; 3]; [4; 4; 4]; [3; 1; 5]; [1; 4; 5]]%Z = 51%Z /\
+  wfg [4; 4; 4; 4]%Z [[0; 3; 2; 1]; [1; 2; 3; 0]; [2; 1; 0; 3]; [3; 0; 1; 2]; [1; 1; 2; 2]]%Z =
+  hv_spec [4; 4; 4; 4]%Z [[0; 3; 2; 1]; [1; 2; 3; 0]; [2; 1; 0; 3]; [3; 0; 1; 2]; [1; 1; 2; 2]]%Z.
+Proof. exact wfg_example. Qed.
+Print Assumptions C13_wfg_example.
+
+(* ---- 3-D sweep (HypervolumeCalculator3D.h) *)
+Theorem C13_hv3d_correct :
+  forall ref S, length ref = 3 -> below_ref ref S -> hv3d ref S = hv_spec ref S.
+Proof. exact hv3d_correct. Qed.
+Print Assumptions C13_hv3d_correct.
+
+Theorem C13_hv3d_correct_any_tie_order :
+  forall r0 r1 r2 S L, below_ref [r0; r1; r2] S ->
+    (forall t, In t L <-> In t (filter (strict3 r0 r1 r2) (map to_triple S))) -> sorted_z L ->
+    sweep3d r0 r1 r2 L = hv_spec [r0; r1; r2] S.
+Proof. exact sweep3d_correct. Qed.
+Print Assumptions C13_hv3d_correct_any_tie_order.
+
+Theorem C13_hv3d_example :
+  below_ref [6; 6; 6]%Z [[1; 5; 2]; [2; 3; 3]; [2; 3; 3]; [4; 4; 4]; [3; 1; 5]; [1; 4; 5]; [2; 2; 3]; [6; 0; 0]]%Z /\
+  hv3d [6; 6; 6]%Z [[1; 5; 2]; [2; 3; 3]; [2; 3; 3]; [4; 4; 4]; [3; 1; 5]; [1; 4; 5]; [2; 2; 3]; [6; 0; 0]]%Z = 60%Z /\
+  hv_spec [6; 6; 6]%Z [[1; 5; 2]; [2; 3; 3]; [2; 3; 3]; [4; 4; 4]; [3; 1; 5]; [1; 4; 5]; [2; 2; 3]; [6; 0; 0]]%Z = 60%Z.
+Proof. exact hv3d_example. Qed.
+Print Assumptions C13_hv3d_example.
+
+(* ---- 2-D subset selection (HypervolumeSubsetSelection2D.h, overload with reference point) *)
+Theorem C13_hssp_upper_envelope :
+  forall funs xs, length funs = length xs ->
+    (forall i j, i < j < length funs -> (la (nth i funs dl) < la (nth j funs dl))%Z) ->
+    (forall i j, i <= j < length xs -> (nth i xs 0 <= nth j xs 0)%Z) ->
+    (forall j, j < length funs -> lidx (nth j funs dl) = j) ->
+    length (envelope funs xs) = length xs /\
+    forall t, t < length xs ->
+      snd (nth t (envelope funs xs) d0) <= t /\
+      ev (nth (snd (nth t (envelope funs xs) d0)) funs dl) (nth t xs 0%Z) = fst (nth t (envelope funs xs) d0) /\
+      forall j, j <= t -> (ev (nth j funs dl) (nth t xs 0%Z) <= fst (nth t (envelope funs xs) d0))%Z.
+Proof. exact envelope_ok. Qed.
+Print Assumptions C13_hssp_upper_envelope.
+
+Theorem C13_hssp_optimal_any_arrangement :
+  forall env arr ref S k sel,
+    env_ok env -> arr_ok arr -> length ref = 2 -> below_ref ref S ->
+    hssp2d_gen env arr ref S k = Some sel ->
+    length sel = length S /\ count_true sel <= k /\ (forall p, In p (pick sel S) -> In p S) /\
+    forall T, incl T S -> length T <= k -> (hv_spec ref T <= hv_spec ref (pick sel S))%Z.
+Proof. exact hssp2d_gen_optimal. Qed.
+Print Assumptions C13_hssp_optimal_any_arrangement.
+
+Theorem C13_hssp_sort_instance :
+  forall l, Permutation (isort fp_lt l) l /\ StronglySorted (fun a b => (px a <= px b)%Z) (isort fp_lt l).
+Proof. exact isort_arr_ok. Qed.
+Print Assumptions C13_hssp_sort_instance.
+
+Theorem C13_hssp_optimal :
+  forall ref S k sel, length ref = 2 -> below_ref ref S -> hssp2d ref S k = Some sel ->
+    length sel = length S /\ count_true sel <= k /\ (forall p, In p (pick sel S) -> In p S) /\
+    forall T, incl T S -> length T <= k -> (hv_spec ref T <= hv_spec ref (pick sel S))%Z.
+Proof. exact hssp2d_optimal. Qed.
+Print Assumptions C13_hssp_optimal.
+
+Theorem C13_hssp_is_best_subset :
+  forall ref S k sel, length ref = 2 -> below_ref ref S -> hssp2d ref S k = Some sel ->
+    hv_spec ref (pick sel S) = best_subset_hv k ref S.
+Proof. exact hssp2d_is_best_subset. Qed.
+Print Assumptions C13_hssp_is_best_subset.
+
+Theorem C13_hssp_example :
+  below_ref [8; 8]%Z [[1; 6]; [2; 4]; [2; 5]; [3; 4]; [5; 1]; [2; 4]; [4; 2]; [1; 7]]%Z /\
+  hssp2d [8; 8]%Z [[1; 6]; [2; 4]; [2; 5]; [3; 4]; [5; 1]; [2; 4]; [4; 2]; [1; 7]]%Z 3 =
+    Some [false; true; false; false; true; false; true; false] /\
+  hv_spec [8; 8]%Z (pick [false; true; false; false; true; false; true; false]
+                       [[1; 6]; [2; 4]; [2; 5]; [3; 4]; [5; 1]; [2; 4]; [4; 2]; [1; 7]]%Z) = 35%Z /\
+  best_subset_hv 3 [8; 8]%Z [[1; 6]; [2; 4]; [2; 5]; [3; 4]; [5; 1]; [2; 4]; [4; 2]; [1; 7]]%Z = 35%Z.
+Proof. exact hssp2d_example. Qed.
+Print Assumptions C13_hssp_example.
